@@ -205,10 +205,10 @@ SWEEP_CTX = {"x": '<b a="1" c=\'2\'>&/', "y": "'\"><", "lst": ['<b a="1" c=\'2\'
              "n": 2, "w": "<i> \"aa\" 'bb' <u> cc>", "objs": [{"a": "<1>"}, {"a": "'2\""}]}
 SWEEP_PRELUDE = ("{% set cap %}{{ x }}-{{ y }} end{% endset %}{% set sep %}, {% endset %}{% set fmt %}%s and %s{% endset %}"
                  "{% set dash %}a-b-c{% endset %}")
-OPERANDS = ["x", "cap", "lst", "d", "[cap, x]", "(x ~ cap)", "w", "fmt", "dash", "objs", "n"]
+OPERANDS = ["x", "cap", "lst", "d", "[cap, x]", "[cap, cap]", "(x ~ cap)", "w", "fmt", "dash", "objs", "n"]
 ARGS = ["", "(x)", "(cap)", "(n)", "(x, y)", "(cap, x)", "(x, cap)", "(n, x)", "(sep)", "('-', x)", "('upper')", "('a')",
         "(attribute='a')", "(length=6, end=x, leeway=0)", "(length=6, end=sep, leeway=0)", "(width=3, wrapstring=x)",
-        "(n, true)", "(default=x)", "(x, true)", "(1, x)"]
+        "(n, true)", "(default=x)", "(x, true)", "(1, x)", "(lst, d)"]      # (lst, d): non-string arguments that carry markup
 
 
 def sweep_cases(names, rng, thorough):
@@ -617,7 +617,7 @@ def main():
     chk.cov["distinct_nontrivial"] = len(nontriv)
     chk.cov["rule"] = ("A: typed random programs (depth 2-4, metacharacter string literals, map literals / lookups / loops over maps and |items / printing of whole maps and lists / unpacking set and with) x contexts of metacharacter strings - also as values, nested values and keys of the map variables - under 5 auto-escaped template names, engine (debug+release) vs "
                        "extracted interpreter with esc=true, plus the no-raw-metacharacter oracle on the engine output; A': same oracle, wild contexts (metacharacter strings/lists in every variable, "
-                       "html includes); B: generated bodies printed through 15 capture routes vs direct; C: every registered filter x 11 operands x 20 argument shapes, then pairs; D: a family of template names (prefix x extension x ignored-suffix shapes incl. empty stems, upper case, trailing dots, NUL, backslash, non-ASCII, plus random names) "
+                       "html includes); B: generated bodies printed through 15 capture routes vs direct; C: every registered filter x 12 operands x 21 argument shapes, then pairs; D: a family of template names (prefix x extension x ignored-suffix shapes incl. empty stems, upper case, trailing dots, NUL, backslash, non-ASCII, plus random names) "
                        "rendered directly and through include / extends / import from a template of another mode, compared with the proved name->mode model. "
                        "non-trivial = distinct case that renders without error and (A, A') whose output contains an escaped metacharacter entity, (B) whose body output contains an entity, (C) every accepted filter invocation")
     chk.cov["samples"] = samples
